@@ -16,40 +16,42 @@ import (
 
 // evidence accumulates what a run actually covered; every number is measured.
 type evidence struct {
-	d              *driver
-	planned        int
-	evaluations    int
-	skipped        int
-	distinct       map[string]bool // distinct non-trivial scenario hashes
-	interleave     map[string]bool // distinct switch-sequence hashes (with >=1 switch)
-	families       map[string]int
-	strata         map[string]int
-	faults         map[string]int
-	opKinds        map[string]int
-	opOutcomes     map[string]int
-	pairs          map[string]int
-	steps          uint64
-	switches       uint64
-	overlaps       uint64
-	slices         int
-	monitorRuns    int
-	mapVisits      []uint64
-	mapPermuted    []uint64
-	twinRuns       int
-	twinOK         int
-	crashes        int
-	reuseAfterFail int
-	histories2     int
-	rawFindings    int
-	consequences   int
-	syncedWrites   int
-	touches        uint64
-	twinLogDiffs   int
-	known          int
-	violations     int
-	wall           float64
-	samples        []any
-	sourcesUsed    map[string]bool
+	d                  *driver
+	planned            int
+	evaluations        int
+	skipped            int
+	distinct           map[string]bool // distinct non-trivial scenario hashes
+	interleave         map[string]bool // distinct switch-sequence hashes (with >=1 switch)
+	families           map[string]int
+	strata             map[string]int
+	faults             map[string]int
+	opKinds            map[string]int
+	opOutcomes         map[string]int
+	pairs              map[string]int
+	steps              uint64
+	switches           uint64
+	overlaps           uint64
+	slices             int
+	monitorRuns        int
+	mapVisits          []uint64
+	mapPermuted        []uint64
+	twinRuns           int
+	twinOK             int
+	crashes            int
+	reuseAfterFail     int
+	histories2         int
+	rawFindings        int
+	consequences       int
+	syncedWrites       int
+	scenariosWithKnown int
+	scenariosFullyLive int
+	touches            uint64
+	twinLogDiffs       int
+	known              int
+	violations         int
+	wall               float64
+	samples            []any
+	sourcesUsed        map[string]bool
 }
 
 func newEvidence(d *driver, planned int) *evidence {
@@ -338,7 +340,9 @@ func (e *evidence) write(path string) error {
 		"corpus_sources":                       len(d.corpus.progs),
 		"raw_findings":                         e.rawFindings,
 		"known_findings_matched":               e.known,
-		"race_detector":                        map[string]any{"tracked_package_level_variables": d.sites.RaceVars, "instrumented_access_sites": d.sites.TouchSites, "accesses_observed": e.touches, "exempt_packages": d.sites.RaceExemptPkgs},
+		"scenarios_in_which_a_known_finding_fired_downstream_comparisons_on_that_module_masked": e.scenariosWithKnown,
+		"scenarios_without_any_known_finding_all_comparisons_live":                              e.scenariosFullyLive,
+		"race_detector": map[string]any{"tracked_package_level_variables": d.sites.RaceVars, "instrumented_access_sites": d.sites.TouchSites, "accesses_observed": e.touches, "exempt_packages": d.sites.RaceExemptPkgs},
 		"enumerated_strata": map[string]any{
 			"T1_reuse_pairs_on_one_spirv_backend": map[string]any{"programs": len(d.pairProgs), "ordered_pairs": len(d.pairProgs) * len(d.pairProgs), "executed": e.families["T1-reuse-pair"], "exhaustive": len(d.pairProgs) > 0 && e.families["T1-reuse-pair"] == len(d.pairProgs)*len(d.pairProgs)},
 			"T2_one_map_site_reversed_at_a_time":  map[string]any{"program_operation_site_triples_reached": len(d.siteJobs), "executed": e.families["T2-single-site"], "exhaustive": len(d.siteJobs) > 0 && e.families["T2-single-site"] == len(d.siteJobs)},
